@@ -43,32 +43,81 @@ def make_dictionary(wd, std_lines, anc_lines, tankan_lines, name="dictionary.dat
     return out
 
 
+PORT_DIR = "/tmp/chokan_verif_ports"
+
+
 def free_port():
-    s = socket.socket()
-    s.bind(("127.0.0.1", 0))
-    p = s.getsockname()[1]
-    s.close()
-    return p
+    """a port nobody else of this machinery is using: reserved by an O_EXCL file until release_port (concurrent server
+    starts in threads and in parallel runs must never pick the same port: a client would silently talk to the wrong server)"""
+    os.makedirs(PORT_DIR, exist_ok=True)
+    rnd = random.Random(os.getpid() * 1000003 + time.time_ns())
+    for _ in range(2000):
+        p = rnd.randint(20000, 60000)
+        f = os.path.join(PORT_DIR, str(p))
+        try:
+            fd = os.open(f, os.O_CREAT | os.O_EXCL | os.O_WRONLY)
+        except FileExistsError:
+            try:
+                pid = int(open(f).read().strip() or "0")
+                os.kill(pid, 0)
+            except (ValueError, ProcessLookupError, FileNotFoundError):
+                try:
+                    os.unlink(f)          # the reserving process is gone
+                except OSError:
+                    pass
+            except PermissionError:
+                pass
+            continue
+        os.write(fd, str(os.getpid()).encode())
+        os.close(fd)
+        s = socket.socket()
+        try:
+            s.bind(("127.0.0.1", p))
+            s.close()
+            return p
+        except OSError:
+            s.close()
+            os.unlink(f)
+    raise RuntimeError("no free port")
+
+
+def release_port(p):
+    try:
+        os.unlink(os.path.join(PORT_DIR, str(p)))
+    except OSError:
+        pass
 
 
 class Server:
     def __init__(self, dictionary, user_dir=None, workers=None, save_seconds=None, env=None, wait=True):
-        self.port = free_port()
-        cmd = [SERVER_BIN, "-p", str(self.port), "-d", dictionary]
-        if user_dir:
-            cmd += ["-u", user_dir]
-        if save_seconds is not None:
-            cmd += ["-s", str(save_seconds)]
         e = dict(os.environ)
         e.pop("RUST_LOG", None)
         if workers is not None:
             e["TOKIO_WORKER_THREADS"] = str(workers)
         if env:
             e.update(env)
-        self.log = tempfile.NamedTemporaryFile(prefix="srvlog_", dir=RUN, delete=False)
-        self.proc = subprocess.Popen(cmd, stdout=self.log, stderr=subprocess.STDOUT, env=e)
         self.id = 0
-        self.up = self.wait_up(8.0) if wait else None
+        for attempt in range(3):
+            self.port = free_port()
+            cmd = [SERVER_BIN, "-p", str(self.port), "-d", dictionary]
+            if user_dir:
+                cmd += ["-u", user_dir]
+            if save_seconds is not None:
+                cmd += ["-s", str(save_seconds)]
+            self.log = tempfile.NamedTemporaryFile(prefix="srvlog_", dir=RUN, delete=False)
+            self.proc = subprocess.Popen(cmd, stdout=self.log, stderr=subprocess.STDOUT, env=e)
+            self.up = self.wait_up(20.0) if wait else None
+            if not wait:
+                break
+            if self.up:
+                time.sleep(0.05)
+                if self.proc.poll() is None:
+                    break            # our own process is the one listening
+            # the process died (e.g. the port was taken by a foreign process after all): once more on another port, unless it
+            # dies for a reason of its own (then the last attempt's state is what the caller sees)
+            if "Address already in use" not in self.logtext() and "AddrInUse" not in self.logtext():
+                break
+            release_port(self.port)
 
     def wait_up(self, timeout):
         t0 = time.time()
@@ -111,7 +160,7 @@ class Server:
     def dump(self):
         return self.call("Verif.Dump", {})
 
-    def quiesce(self, cap=3.0):
+    def quiesce(self, cap=8.0):
         """wait until every asynchronous hand-off has been applied"""
         t0 = time.time()
         last = None
@@ -133,6 +182,7 @@ class Server:
             except subprocess.TimeoutExpired:
                 self.proc.kill()
                 self.proc.wait(3)
+        release_port(self.port)
         try:
             self.log.close()
             os.unlink(self.log.name)
